@@ -651,9 +651,22 @@ func (f *fn) cond(e ast.Expr) string {
 			return paren(a) + map[token.Token]string{token.LAND: " ∧ ", token.LOR: " ∨ "}[x.Op] + paren(b)
 		case token.EQL, token.NEQ, token.LSS, token.LEQ, token.GTR, token.GEQ:
 			if id, ok := x.Y.(*ast.Ident); ok && id.Name == "nil" && (x.Op == token.EQL || x.Op == token.NEQ) {
+				suffix := map[token.Token]string{token.EQL: " = true", token.NEQ: " = false"}[x.Op]
 				if i, p, ord, ok := f.path(x.X); ok && p != "" { // s.ptr == nil: a Bool parameter `s_ptr_nil`
-					n := f.pathParam(x, i, p+".nil", ord, ty{k: kBool})
-					return n + map[token.Token]string{token.EQL: " = true", token.NEQ: " = false"}[x.Op]
+					return f.pathParam(x, i, p+".nil", ord, ty{k: kBool}) + suffix
+				}
+				switch t := f.typeOf(x.X); {
+				case t.k == kOpaque || t.k == kStruct: // an interface / pointer value: `<Type>_isNil : α → Bool`
+					v := paren(f.expr(x.X))
+					name := strings.NewReplacer(".", "_", "*", "", "/", "_").Replace(tname(t.src)) + "_isNil"
+					if b, isBasic := t.src.(*types.Named); isBasic && b.Obj().Pkg() == nil {
+						name = b.Obj().Name() + "_isNil" // error
+					}
+					return f.param(name, lparam{ltype: f.lean(t) + " → Bool", src: -4}) + " " + v + suffix
+				case t.k == kList: // a slice variable: nil-ness is a separate Bool parameter (a List cannot tell nil from empty)
+					if xid, isID := unparen(x.X).(*ast.Ident); isID {
+						return f.param(f.expr(xid)+"_isNil", lparam{ltype: "Bool", src: -4}) + suffix
+					}
 				}
 			}
 			ta, tb := f.typeOf(x.X), f.typeOf(x.Y)
@@ -1453,6 +1466,12 @@ func (u *Unit) Slice(pkgRel, recv, name, leanName string, pats []string, result 
 			}
 			sort.Strings(f.sig.TVars)
 			f.sig.Res, f.sig.Opt = prev.sig.Res, f.opt
+		}
+		if sw, isSwitch := last.(*ast.SwitchStmt); isSwitch && sw.Tag != nil && sw.Init == nil && resExpr == nil && len(sel) == 1 {
+			// a selected `switch tag {..}` stands for the number of the arm taken (1-based, in source order; 0 = none)
+			body = f.switchArm(sw)
+			f.sig.Res = "Int"
+			continue
 		}
 		body = f.block(sel, func() string {
 			if resExpr != nil {
